@@ -116,7 +116,7 @@ fn show_base(b: &Option<BTreeMap<String, (char, u64)>>) -> String {
 
 fn write_config(p: &Proj, ratchet: Option<&str>, fail_fast: bool, wae: bool) {
     let mut t = String::from(
-        "version = \"2\"\n[content]\nmax_lines = 5\nwarn_threshold = 0.8\nextensions = [\"rs\"]\n[structure]\nmax_files = 2\nmax_dirs = 1\n[[structure.rules]]\nscope = \"lib\"\nmax_files = 5\ndeny_extensions = [\".bak\"]\n",
+        "version = \"2\"\n[content]\nmax_lines = 5\nwarn_threshold = 0.8\nextensions = [\"rs\"]\n[structure]\nmax_files = 2\nmax_dirs = 1\nwarn_dirs_at = 0\n[[structure.rules]]\nscope = \"lib\"\nmax_files = 5\ndeny_extensions = [\".bak\"]\n",
     );
     if let Some(r) = ratchet {
         t += &format!("[baseline]\nratchet = \"{r}\"\n");
